@@ -149,3 +149,192 @@ theorem decode_total (facStr sevStr : Bool) (data0 : Bytes) : Total (decode facS
               exact msgTail_total _ _ (by intro d'; simp)
 
 end FileD.Dec.Syslog3164
+
+/-! ### fidelity -/
+
+namespace FileD.Dec.Syslog
+open FileD GoSlice FileD.Dec
+
+/-- a rendered priority `<pri>` is read back -/
+theorem parsePriority_hit (pri rest : Bytes) (p : Int) (ha : atoi pri = some p) (hp : p ≤ 191)
+    (hl : 1 ≤ pri.length ∧ pri.length ≤ 3) :
+    parsePriority (cLt :: (pri ++ cGt :: rest)) = .ok (some (p, (pri.length + 1 : Nat))) := by
+  have hd := atoi_digits pri p ha
+  have hgt : cGt ∉ cLt :: pri := by
+    intro h
+    rcases List.mem_cons.mp h with h | h
+    · exact absurd h (by decide)
+    · have := hd _ h
+      revert this; decide
+  have e : indexByte (cLt :: (pri ++ cGt :: rest)) cGt = ((cLt :: pri).length : Nat) :=
+    indexByte_append_hit (cLt :: pri) cGt rest hgt
+  unfold parsePriority
+  have c0 : ¬ ((cLt :: (pri ++ cGt :: rest)).length < 3) := by simp; omega
+  simp only [c0, ↓reduceIte]
+  obtain ⟨x, hx, hg⟩ := idx?_ok (cLt :: (pri ++ cGt :: rest)) 0 (by simp; omega)
+  have : x = cLt := by simpa using hg.symm
+  subst this
+  rw [hx, ok_bind]
+  simp only [ne_eq, not_true_eq_false, ↓reduceIte, e]
+  have c1 : ¬ ((((cLt :: pri).length : Nat) : Int) < 2 ∨ 4 < (((cLt :: pri).length : Nat) : Int)) := by simp; omega
+  simp only [c1, ↓reduceIte]
+  rw [slice?_ok _ _ _ (by simp; omega), ok_bind]
+  have v : List.take ((((cLt :: pri).length : Nat) : Int).toNat - (1 : Int).toNat) (List.drop (1 : Int).toNat (cLt :: (pri ++ cGt :: rest))) = pri := by
+    simp
+  rw [v, ha]
+  have c2 : ¬ (p > 191) := by omega
+  simp only [c2, ↓reduceIte, pure_eq_ok, List.length_cons]
+
+end FileD.Dec.Syslog
+
+namespace FileD.Dec.Syslog3164
+open FileD GoSlice FileD.Dec FileD.Dec.Syslog
+
+/-- `validateTimestamp` looks at the first 16 bytes only -/
+theorem validateTimestamp_append (x y : Bytes) (h : 16 ≤ x.length) : validateTimestamp (x ++ y) = validateTimestamp x := by
+  unfold validateTimestamp
+  have c1 : ¬ (((x ++ y).length : Int) < stampLen + 1) := by simp [stampLen]; omega
+  have c2 : ¬ ((x.length : Int) < stampLen + 1) := by simp [stampLen]; omega
+  rw [if_neg c1, if_neg c2]
+  simp only [idx?_append_left x y _ (by omega : (3 : Int) < x.length), idx?_append_left x y _ (by omega : (6 : Int) < x.length),
+    idx?_append_left x y _ (by omega : (9 : Int) < x.length), idx?_append_left x y _ (by omega : (12 : Int) < x.length),
+    idx?_append_left x y _ (by omega : (15 : Int) < x.length), idx?_append_left x y _ (by omega : (0 : Int) < x.length),
+    idx?_append_left x y _ (by omega : (1 : Int) < x.length), idx?_append_left x y _ (by omega : (2 : Int) < x.length),
+    idx?_append_left x y _ (by omega : (4 : Int) < x.length), idx?_append_left x y _ (by omega : (5 : Int) < x.length),
+    slice?_append_left x y 7 9 (by omega) (by omega), slice?_append_left x y 10 12 (by omega) (by omega),
+    slice?_append_left x y 13 15 (by omega) (by omega)]
+
+/-- the optional space in front of the message -/
+def stripSP (d : Bytes) : Bytes := match d with | c :: cs => if c = SP then cs else d | [] => []
+
+theorem msgTail_eq (d : Bytes) :
+    (if d.length > 0 then do
+        let c ← idx? d 0
+        if c = SP then sliceFrom? d 1 else pure d
+      else pure d) = (.ok (stripSP d) : GoM Bytes) := by
+  cases d with
+  | nil => rfl
+  | cons c cs =>
+    have : (c :: cs).length > 0 := by simp
+    rw [if_pos this]
+    obtain ⟨x, hx, hg⟩ := idx?_ok (c :: cs) 0 (by simp)
+    have : x = c := by simpa using hg.symm
+    subst this
+    rw [hx, ok_bind]
+    by_cases hsp : x = SP
+    · rw [if_pos hsp, sliceFrom?_ok _ _ (by simp <;> omega)]; simp [stripSP, hsp]
+    · rw [if_neg hsp]; simp [stripSP, hsp]
+
+theorem msgTail_eq' (d : Bytes) :
+    (if d.length > 0 then do
+        let c ← idx? d 0
+        if c = SP then sliceFrom? d 1 else Except.ok d
+      else Except.ok d) = (.ok (stripSP d) : GoM Bytes) := msgTail_eq d
+
+/-- the line without its trailing newline: `<pri>ts host app[procid]: msg` -/
+def render (pri ts host app procid msg : Bytes) : Bytes :=
+  cLt :: (pri ++ cGt :: (ts ++ SP :: (host ++ SP :: (app ++ cLBr :: (procid ++ cRBr :: cColon :: SP :: msg)))))
+
+theorem decode_trimmed (fs ss : Bool) (pri ts host app procid msg : Bytes) (p : Int)
+    (ha : atoi pri = some p) (hp : p ≤ 191) (hl : 1 ≤ pri.length ∧ pri.length ≤ 3)
+    (hts : ts.length = 15) (hv : validateTimestamp (ts ++ [SP]) = .ok true)
+    (hh : SP ∉ host) (happ : ∀ x ∈ app, x ∉ [cLBr, cColon, SP]) (hpr : cRBr ∉ procid)
+    (line : Bytes) (hline : trimSuffixNL line = render pri ts host app procid msg) :
+    decode fs ss line = .ok (some ⟨pri, facility p fs, severity p ss, ts, host, app, procid, msg⟩) := by
+  unfold decode
+  rw [hline]
+  unfold render
+  simp only [pure_eq_ok, ok_bind]
+  have c0 : ¬ ((cLt :: (pri ++ cGt :: (ts ++ SP :: (host ++ SP :: (app ++ cLBr :: (procid ++ cRBr :: cColon :: SP :: msg)))))).length = 0) := by simp
+  rw [if_neg c0, parsePriority_hit pri _ p ha hp hl, ok_bind]
+  simp only []
+  rw [slice?_ok _ _ _ (by simp; omega), ok_bind, sliceFrom?_ok _ _ (by simp; omega), ok_bind]
+  have x1 : (((pri.length + 1 : Nat) : Int) + 1).toNat = (cLt :: pri).length + 1 := by simp; omega
+  have x1' : ∀ r, cLt :: (pri ++ cGt :: r) = (cLt :: pri) ++ cGt :: r := by simp
+  rw [x1, x1', drop_append_length_succ]
+  have v1 : ∀ r, List.take (((pri.length + 1 : Nat) : Int).toNat - (1 : Int).toNat) (List.drop (1 : Int).toNat ((cLt :: pri) ++ cGt :: r)) = pri := by
+    intro r; simp
+  rw [v1]
+  have hv' : ∀ r, validateTimestamp (ts ++ SP :: r) = .ok true := by
+    intro r
+    have : ts ++ SP :: r = (ts ++ [SP]) ++ r := by simp
+    rw [this, validateTimestamp_append _ _ (by simp; omega), hv]
+  rw [hv', ok_bind]
+  simp only [Bool.not_true, Bool.false_eq_true, ↓reduceIte, stampLen]
+  rw [sliceTo?_ok _ _ (by simp; omega), ok_bind, sliceFrom?_ok _ _ (by simp; omega), ok_bind]
+  have x2 : ((15 : Int) + 1).toNat = ts.length + 1 := by omega
+  have x2' : (15 : Int).toNat = ts.length := by omega
+  rw [x2, x2', drop_append_length_succ, List.take_left' rfl]
+  rw [indexByte_append_hit host SP _ hh]
+  have c1 : ¬ ((host.length : Int) < 0) := by omega
+  simp only [c1, ↓reduceIte]
+  rw [sliceTo?_ok _ _ (by simp; omega), ok_bind, sliceFrom?_ok _ _ (by simp; omega), ok_bind]
+  have x3 : ((host.length : Int) + 1).toNat = host.length + 1 := by omega
+  rw [x3, drop_append_length_succ]
+  simp only [Int.toNat_natCast, List.take_left']
+  rw [indexAny_append_hit app cLBr _ [cLBr, cColon, SP] happ (by simp)]
+  have c2 : ¬ ((app.length : Int) < 0) := by omega
+  simp only [c2, ↓reduceIte]
+  rw [sliceTo?_ok _ _ (by simp; omega), ok_bind, sliceFrom?_ok _ _ (by simp; omega), ok_bind]
+  simp only [Int.toNat_natCast, List.take_left', List.drop_left']
+  obtain ⟨x, hx, hg⟩ := idx?_ok (cLBr :: (procid ++ cRBr :: cColon :: SP :: msg)) 0 (by simp; omega)
+  have : x = cLBr := by simpa using hg.symm
+  subst this
+  rw [hx, ok_bind]
+  simp only [↓reduceIte]
+  have e4 : indexByte (cLBr :: (procid ++ cRBr :: cColon :: SP :: msg)) cRBr = ((cLBr :: procid).length : Nat) :=
+    indexByte_append_hit (cLBr :: procid) cRBr _ (by simp [hpr]; decide)
+  rw [e4]
+  have c3 : ¬ ((((cLBr :: procid).length : Nat) : Int) < 0 ∨ (((cLBr :: procid).length : Nat) : Int) + 1 ≥ ((cLBr :: (procid ++ cRBr :: cColon :: SP :: msg)).length : Nat)) := by
+    simp; omega
+  rw [if_neg c3]
+  obtain ⟨y, hy, hgy⟩ := idx?_ok (cLBr :: (procid ++ cRBr :: cColon :: SP :: msg)) ((((cLBr :: procid).length : Nat) : Int) + 1) (by simp; omega)
+  have : y = cColon := by
+    have e : ((((cLBr :: procid).length : Nat) : Int) + 1).toNat = (cLBr :: procid).length + 1 := by omega
+    rw [e] at hgy
+    have : cLBr :: (procid ++ cRBr :: cColon :: SP :: msg) = (cLBr :: procid) ++ cRBr :: (cColon :: SP :: msg) := by simp
+    rw [this, List.getElem?_append_right (by omega)] at hgy
+    simpa using hgy.symm
+  subst this
+  rw [hy, ok_bind]
+  simp only [ne_eq, not_true_eq_false, ↓reduceIte]
+  rw [slice?_ok _ _ _ (by simp; omega), ok_bind, sliceFrom?_ok _ _ (by simp; omega), ok_bind]
+  simp only [pure_eq_ok, ok_bind]
+  have x5 : ((((cLBr :: procid).length : Nat) : Int) + 2).toNat = (cLBr :: procid).length + 1 + 1 := by omega
+  have x5' : cLBr :: (procid ++ cRBr :: cColon :: SP :: msg) = ((cLBr :: procid) ++ [cRBr]) ++ cColon :: (SP :: msg) := by simp
+  have x5'' : (cLBr :: procid).length + 1 = ((cLBr :: procid) ++ [cRBr]).length := by simp
+  rw [x5, x5', x5'', drop_append_length_succ, msgTail_eq', ok_bind]
+  have v5 : List.take ((((cLBr :: procid).length : Nat) : Int).toNat - (1 : Int).toNat) (List.drop (1 : Int).toNat (((cLBr :: procid) ++ [cRBr]) ++ cColon :: (SP :: msg))) = procid := by
+    simp
+  rw [v5]
+  simp [stripSP]
+
+/-- **fidelity**: a well-formed RFC3164 line yields exactly its fields, with and without the trailing newline -/
+theorem decode_fields (fs ss : Bool) (pri ts host app procid msg : Bytes) (p : Int) (nl : Bool)
+    (ha : atoi pri = some p) (hp : p ≤ 191) (hl : 1 ≤ pri.length ∧ pri.length ≤ 3)
+    (hts : ts.length = 15) (hv : validateTimestamp (ts ++ [SP]) = .ok true)
+    (hh : SP ∉ host) (happ : ∀ x ∈ app, x ∉ [cLBr, cColon, SP]) (hpr : cRBr ∉ procid)
+    (hmsg : msg.getLast? ≠ some NL) :
+    decode fs ss (render pri ts host app procid msg ++ (if nl then [NL] else []))
+      = .ok (some ⟨pri, facility p fs, severity p ss, ts, host, app, procid, msg⟩) := by
+  apply decode_trimmed fs ss pri ts host app procid msg p ha hp hl hts hv hh happ hpr
+  cases nl with
+  | true => exact trimSuffixNL_append_nl _
+  | false =>
+    simp only [Bool.false_eq_true, ↓reduceIte, List.append_nil]
+    apply trimSuffixNL_of_last_ne
+    unfold render
+    have : cLt :: (pri ++ cGt :: (ts ++ SP :: (host ++ SP :: (app ++ cLBr :: (procid ++ cRBr :: cColon :: SP :: msg)))))
+        = (cLt :: (pri ++ cGt :: (ts ++ SP :: (host ++ SP :: (app ++ cLBr :: (procid ++ [cRBr, cColon])))))) ++ (SP :: msg) := by simp
+    rw [this, List.getLast?_append]
+    cases msg with
+    | nil => simp; decide
+    | cons m ms =>
+      rw [List.getLast?_cons_cons]
+      cases hm : (m :: ms).getLast? with
+      | none => simp at hm
+      | some z =>
+        rw [hm] at hmsg
+        simpa using hmsg
+
+end FileD.Dec.Syslog3164
